@@ -114,6 +114,14 @@ pub fn rec_get(w: &LogWriter, table: ValueTableId, index: u64, dest: &mut [u8]) 
 	LogQuery::value(w, table, index, dest)
 }
 
+/// Overlays of a one-column database whose latest enacted record (for column 0) is `rec` (C04.M / C04.C).
+pub fn overlays_with_record(rec: u64) -> RwLock<LogOverlays> {
+	let mut ids = Vec::with_capacity(1);
+	ids.push(rec);
+	RwLock::new(LogOverlays { index: Vec::new(), value: Vec::new(), ref_count: Vec::new(), last_record_ids: ids })
+}
+pub fn overlays_set_record(o: &RwLock<LogOverlays>, rec: u64) { o.write().last_record_ids[0] = rec; }
+
 pub fn new_overlays() -> RwLock<LogOverlays> {
 	ov_reset();
 	RwLock::new(LogOverlays::with_columns(0))
@@ -387,12 +395,19 @@ pub fn stub_file_seek(f: &mut std::fs::File, _pos: std::io::SeekFrom) -> std::io
 /// log file and append it to the cleanup queue. Enabled by harnesses through RACE_ON (fd 30 marks the late file).
 pub static mut RACE_ON: bool = false;
 pub static mut RACE_DONE: bool = false;
-pub fn race_hook() {
+pub fn race_hook() {}
+/// The race is modelled through the one observation DbInner::clean_logs makes of the queue before cleaning:
+/// `Log::num_dirty_logs`. The late file (id 3, fd 30) sits at the back of the queue from the start; the first call of
+/// num_dirty_logs (before the table flush) does not count it yet, later calls do. Log::clean_logs drains from the front,
+/// so this is indistinguishable from the file being appended while the flush runs — without mutating the queue through
+/// a raw pointer inside a stub (that variant never left symbolic execution: VecDeque drain/rotate on a queue whose
+/// length was no longer a constant).
+pub static mut NDL_CALLS: usize = 0;
+pub fn stub_num_dirty_logs(log: &Log) -> usize {
+	let n = log.cleanup_queue.read().len();
 	unsafe {
-		if RACE_ON && !RACE_DONE && !LOG_PTR.is_null() {
-			RACE_DONE = true;
-			(*LOG_PTR).cleanup_queue.write().push_back((3, vc::raw_file(30)));
-		}
+		NDL_CALLS += 1;
+		if RACE_ON && NDL_CALLS == 1 { n - 1 } else { n }
 	}
 }
 pub fn set_log_ptr(log: &Log) { unsafe { LOG_PTR = log as *const Log; } }
